@@ -160,6 +160,9 @@ class Check:
                     o.status = 'undecided'
         if not self.obls:
             raise EngineError('no obligations generated')
+        if self.demoted and not self.bounded:
+            # a demoted section is decided by the bounded stand-in of its property; without one nothing would decide it
+            raise EngineError(f'sections demoted ({[d["section"] for d in self.demoted]}) but this contract has no bounded stand-in')
         return self._report()
 
     def _expected(self):
